@@ -204,7 +204,21 @@ func (c *Ctx) Fn(rel, name string) *ssa.Function {
 	if sp == nil {
 		return nil
 	}
-	return sp.Func(name)
+	if f := sp.Func(name); f != nil {
+		return f
+	}
+	// the same code written as a method (its first argument became the receiver): the only method of that name in
+	// the package
+	var found []*ssa.Function
+	for _, m := range c.impls[name] {
+		if pkgPathOf(m) == modPkg+rel && m.Synthetic == "" {
+			found = append(found, m)
+		}
+	}
+	if len(found) == 1 {
+		return found[0]
+	}
+	return nil
 }
 
 func (c *Ctx) ExtFn(pkg, name string) *ssa.Function {
@@ -217,7 +231,22 @@ func (c *Ctx) ExtFn(pkg, name string) *ssa.Function {
 
 // Method resolves a method of named type T (value or pointer receiver) in a repo package.
 func (c *Ctx) Method(rel, typ, name string) *ssa.Function {
-	return c.MethodIn(modPkg+rel, typ, name)
+	if f := c.MethodIn(modPkg+rel, typ, name); f != nil {
+		return f
+	}
+	// the same code written as a function taking the former receiver first
+	if sp := c.SPkg[modPkg+rel]; sp != nil {
+		if f := sp.Func(name); f != nil && len(f.Params) > 0 && f.Signature.Recv() == nil {
+			t := f.Params[0].Type()
+			if p, ok := t.(*types.Pointer); ok {
+				t = p.Elem()
+			}
+			if n, ok := t.(*types.Named); ok && n.Obj().Name() == typ && n.Obj().Pkg() != nil && n.Obj().Pkg().Path() == modPkg+rel {
+				return f
+			}
+		}
+	}
+	return nil
 }
 
 func (c *Ctx) MethodIn(pkg, typ, name string) *ssa.Function {
